@@ -455,7 +455,7 @@ func (w *worker) run(cs Case) (res result) {
 	for _, f := range cs.Shape.Files {
 		t := w.template(f.Class)
 		err := p.mgr.GetMetadata().RecordFile(ctx, &tiering.FileMetadata{
-			Path: dbname + "/" + f.Rel, Database: dbname, Measurement: measurement,
+			Path: dbname + "/" + f.Rel, Database: dbname, Measurement: strings.SplitN(f.Rel, "/", 2)[0],
 			PartitionTime: partitionTime(f.Rel), Tier: tiering.TierHot, SizeBytes: t.Size, CreatedAt: time.Now().UTC(),
 		})
 		if err != nil {
@@ -771,6 +771,9 @@ func singleFaults(sh Shape, log []Event, sizeOf func(rel string) int64, rng *ran
 					one(Fault{Kind: kind, At: e.Point, Phase: "mid", Cut: c})
 				}
 				one(Fault{Kind: kind, At: e.Point, Phase: "late"})
+				if e.Op == "WriteReader" {
+					one(Fault{Kind: kind, At: e.Point, Phase: "commit"})
+				}
 			case e.Mut:
 				one(Fault{Kind: kind, At: e.Point, Phase: "late"})
 			}
@@ -810,6 +813,14 @@ func buildShapes(rng *rand.Rand, thorough bool) []Shape {
 		mo, d := day()
 		shapes = append(shapes, Shape{Name: "one-tiny-alone", Concurrent: 1, Files: []FileSpec{
 			{Class: "tiny2", Rel: rel(mo, d, rng.IntN(24), measurement+"_alone_daily.parquet")},
+		}})
+	}
+	{ // a zero-byte object in a measurement of its own ("z", never queried), next to normal data
+		mo, d := day()
+		rmo, rd := day()
+		shapes = append(shapes, Shape{Name: "one-empty", Concurrent: 1, Files: []FileSpec{
+			{Class: "empty", Rel: fmt.Sprintf("z/2020/%02d/%02d/%02d/z_empty_daily.parquet", mo, d, rng.IntN(24))},
+			{Class: "resident2", Rel: rel(rmo, rd, rng.IntN(24), measurement+"_resident.parquet"), Resident: true},
 		}})
 	}
 	batch := func(name string, classes []string, concurrent int) Shape {
